@@ -15,22 +15,23 @@ import (
 
 // Analysis runs every rule on one loaded configuration.
 type Analysis struct {
-	counters     map[*ssa.Global]bool       // cache of isCounter
-	predFixed    map[int]int64              // parameters fixed for the predicate being classified (semanticPredicateFixed)
-	descTables   map[*ssa.Global]*descTable // lookup map variable → the descriptor table it is an entry of (T3)
-	genOptParams map[*ssa.Parameter]AV      // parameters of the generator's update function that receive a command-line option, with its default
-	genSynthText string                     // the template equivalent to a hand-rendered generator output (W2 render, W3)
-	descGuards   int                        // lookup maps built under the Once of a descriptor-table element
-	initBuilt    int                        // lookup maps built during package initialisation (T3)
-	inertFns     map[*ssa.Function]bool     // cache of inertFn
-	calledFns    map[*ssa.Function]bool     // functions some non-test module code calls or uses as a value (counterDiscipline)
-	clsBusy      map[ssa.Value]bool         // classifyErr: values being classified (recursion guard)
-	genPairs     *pairTable                 // generator table written as an array of {stem, variable} structs
-	kindIs       map[*types.Named]int       // error types whose Is method compares one field: that field (-1: not of that shape)
-	P            *Program
-	G            *Globals
-	Ef           *Effects
-	R            *Result
+	counters         map[*ssa.Global]bool       // cache of isCounter
+	predFixed        map[int]int64              // parameters fixed for the predicate being classified (semanticPredicateFixed)
+	descTables       map[*ssa.Global]*descTable // lookup map variable → the descriptor table it is an entry of (T3)
+	genOptParams     map[*ssa.Parameter]AV      // parameters of the generator's update function that receive a command-line option, with its default
+	genWordsNonEmpty bool                       // the generator drops blank lines before the template runs (W2 → W3)
+	genSynthText     string                     // the template equivalent to a hand-rendered generator output (W2 render, W3)
+	descGuards       int                        // lookup maps built under the Once of a descriptor-table element
+	initBuilt        int                        // lookup maps built during package initialisation (T3)
+	inertFns         map[*ssa.Function]bool     // cache of inertFn
+	calledFns        map[*ssa.Function]bool     // functions some non-test module code calls or uses as a value (counterDiscipline)
+	clsBusy          map[ssa.Value]bool         // classifyErr: values being classified (recursion guard)
+	genPairs         *pairTable                 // generator table written as an array of {stem, variable} structs
+	kindIs           map[*types.Named]int       // error types whose Is method compares one field: that field (-1: not of that shape)
+	P                *Program
+	G                *Globals
+	Ef               *Effects
+	R                *Result
 
 	// API entry points, resolved by exported name
 	// (NME, NM, CM, MTS are the functions holding the bodies: a thin forwarding wrapper
@@ -292,6 +293,7 @@ func NewAnalysis(p *Program) *Analysis {
 			a.R.OK("ANCHOR", name, p.Pos(fn.Pos()), "", "resolved")
 		}
 	}
+	a.detectWalker()
 	a.API = map[*ssa.Function][]*ssa.Function{}
 	for _, slot := range []**ssa.Function{&a.NME, &a.NM, &a.CM, &a.MTS} {
 		api := *slot
